@@ -5,7 +5,7 @@
 From Sessions Require Import Model.Base Model.Sess Model.Hist Model.Corr Proofs.SessDefs
   Proofs.WriteThrough Proofs.WriteThrough2 Proofs.WriteThrough3 Proofs.WriteThrough4
   Proofs.RotateLaws Proofs.RotateLaws2 Proofs.RotateLaws3 Proofs.RotateLaws5 Proofs.RotateLaws6
-  Proofs.C01Spec Proofs.C01Hist Proofs.C01Hist2 Proofs.C01Hist3.
+  Proofs.C01Spec Proofs.C01Hist Proofs.C01Hist2 Proofs.C01Hist3 Proofs.GetDelShape.
 From Coq Require Import Lia.
 
 (* ------------------------------------------------ the ghost, step by step *)
@@ -14,6 +14,7 @@ Definition g_op (d : gdata) (op : sop) (r : sres) : gdata :=
   match op, r with
   | SSet k v, SOk => (kv_set (fst d) k v, snd d)
   | SDel k, SOk => (kv_del (fst d) k, snd d)
+  | SGetDel k, SVal _ => (kv_del (fst d) k, snd d)
   | SLogIn u _, SOk => (fst d, Some (fst u))
   | SLogOut, SOk => (fst d, None)
   | _, _ => d
@@ -25,13 +26,16 @@ Definition g_ex (op : sop) (r : sres) : list N :=
 Definition is_destroy (op : sop) : bool := match op with SDestroy => true | _ => false end.
 Definition is_panic (r : sres) : bool := match r with SPanic _ => true | _ => false end.
 
-Lemma g_script_cons d op ops r rs ex : nogetdel op = true ->
+Lemma g_script_cons d op ops r rs ex :
   g_script d (op :: ops) (r :: rs) ex =
   if is_destroy op then (None, ex) else g_script (g_op d op r) ops rs (g_ex op r ++ ex).
 Proof.
-  intro H. destruct op as [k v|k|k|k|u e| | |]; try discriminate H; cbn [g_script is_destroy g_op g_ex];
+  destruct op as [k v|k|k|k|u e| | |]; cbn [g_script is_destroy g_op g_ex];
     destruct r; try reflexivity; destruct e; reflexivity.
 Qed.
+
+(* a GetAndDelete that finds nothing leaves the ghost as it is: kv_del_absent
+   (Proofs/GetDelShape.v) *)
 
 Lemma g_script_acc : forall ops d rs ex,
   g_script d ops rs ex = (fst (g_script d ops rs []), snd (g_script d ops rs []) ++ ex).
@@ -81,7 +85,7 @@ Proof.
 Qed.
 
 Lemma do_sop_eff s o id d hc op s' r cks :
-  Inv noex s -> GR s -> hand s o id d -> nogetdel op = true -> do_sop s o hc op = (s', r, cks) ->
+  Inv noex s -> GR s -> hand s o id d -> do_sop s o hc op = (s', r, cks) ->
   Inv noex s' /\ GR s' /\ conf s' = conf s /\ (supply s <= supply s')%N /\
   (forall k, k <> id -> key_drawn s k -> view s' k = dropl (g_ex op r) (view s k)) /\
   (forall dd k, In (dd, k) (pending s') -> In (dd, k) (pending s) \/ k = id) /\
@@ -89,7 +93,7 @@ Lemma do_sop_eff s o id d hc op s' r cks :
   else exists id', hand s' o id' (g_op d op r) /\
          ((id' = id /\ cks = []) \/ (id' = KGen (supply s) /\ cks = [CkLive id'])).
 Proof.
-  intros HI HG HD Hop. pose proof (hand_drawn s o id d HI HD) as Hidd.
+  intros HI HG HD. pose proof (hand_drawn s o id d HI HD) as Hidd.
   destruct HD as (ob & Hg & Hid & Hc & HH & Hpe).
   assert (Hsame : Inv noex s /\ GR s /\ conf s = conf s /\ (supply s <= supply s)%N /\
                   (forall k, k <> id -> key_drawn s k -> view s k = dropl [] (view s k)) /\
@@ -98,7 +102,7 @@ Proof.
     split; [intros; reflexivity | intros; left; assumption]. }
   assert (Hrf : r_ref (o_rec ob) = None) by (apply (f_equal fst) in Hc; exact Hc).
   assert (Hd : content_of (o_rec ob) = d) by (apply (f_equal snd) in Hc; exact Hc).
-  destruct op as [k v|k|k|k|u e| | |]; try discriminate Hop; cbn [do_sop is_destroy].
+  destruct op as [k v|k|k|k|u e| | |]; cbn [do_sop is_destroy].
   - (* Set *)
     unfold data_of. rewrite Hg. destruct (r_data (o_rec ob)) as [dd|] eqn:Eda.
     + destruct (modify_save_eff s o ob (fun r0 => set_data r0 (Some (kv_set dd k v))) HI HG HH Hg)
@@ -134,6 +138,30 @@ Proof.
     intros [= <- <- <-]. cbn [g_ex g_op].
     destruct Hsame as (A & B & C & D & E & F). repeat (split; [assumption|]).
     exists id. split; [|left; auto]. exists ob. auto.
+  - (* GetAndDelete: as Delete when the key is found, else nothing *)
+    unfold data_of. rewrite Hg. destruct (r_data (o_rec ob)) as [dd|] eqn:Eda.
+    + destruct (kv_get dd k) as [v|] eqn:Ek.
+      * destruct (modify_save_eff s o ob (fun r0 => set_data r0 (Some (kv_del dd k))) HI HG HH Hg)
+          as (s1 & Hs & HI1 & HG1 & HH1 & Hg1 & Hv & Fpe & Fc & Fu & Fn).
+        rewrite Hs. intros [= <- <- <-]. cbn [g_ex g_op].
+        split; [exact HI1|]. split; [exact HG1|]. split; [exact Fc|]. split; [rewrite Fu; lia|].
+        split; [intros k' Hne _; rewrite Hid in Hv; apply (Hv k' Hne)|]. split; [intros dd' k'; rewrite Fpe; auto|].
+        exists id. split; [|left; auto]. eexists. split; [exact Hg1|]. split; [exact Hid|].
+        split; [|split; [exact HH1 | rewrite Fpe; exact Hpe]].
+        cbn [o_rec]. rewrite cont_set_data, Hrf, <- Hd, (content_data _ _ Eda). reflexivity.
+      * intros [= <- <- <-]. cbn [g_ex g_op].
+        assert (Hsd : (kv_del (fst d) k, snd d) = d).
+        { rewrite <- Hd, (content_data _ _ Eda), (kv_del_absent _ _ Ek), <- (content_data _ _ Eda).
+          destruct (content_of (o_rec ob)); reflexivity. }
+        rewrite Hsd.
+        destruct Hsame as (A & B & C & D & E & F). repeat (split; [assumption|]).
+        exists id. split; [|left; auto]. exists ob. auto.
+    + intros [= <- <- <-]. cbn [g_ex g_op].
+      assert (Hsd : (kv_del (fst d) k, snd d) = d).
+      { rewrite <- Hd. unfold content_of. rewrite Eda. reflexivity. }
+      rewrite Hsd.
+      destruct Hsame as (A & B & C & D & E & F). repeat (split; [assumption|]).
+      exists id. split; [|left; auto]. exists ob. auto.
   - (* LogIn *)
     destruct (login_eff s o ob u e HI HG HH Hg)
       as (s1 & Hs & HI1 & HG1 & HH1 & (ob1 & Hg1 & Hid1 & Hc1) & Hvk & Hvo & Fpe & Fc & Fu & Fn).
@@ -268,7 +296,7 @@ Lemma apply_cookies_app jar a b : apply_cookies jar (a ++ b) = apply_cookies (ap
 Proof. unfold apply_cookies. apply fold_left_app. Qed.
 
 Lemma run_script_eff ops : forall s o id d hc s' rs cks,
-  Inv noex s -> GR s -> hand s o id d -> forallb nogetdel ops = true ->
+  Inv noex s -> GR s -> hand s o id d ->
   run_script s o hc ops = (s', rs, cks) ->
   Inv noex s' /\ GR s' /\ conf s' = conf s /\ (supply s <= supply s')%N /\
   exists fin U, g_script d ops rs [] = (fin, U) /\
@@ -280,13 +308,12 @@ Lemma run_script_eff ops : forall s o id d hc s' rs cks,
     | None => apply_cookies (CKey id) cks = CNone
     end.
 Proof.
-  induction ops as [|op t IH]; intros s o id d hc s' rs cks HI HG HD Hops; cbn [run_script].
+  induction ops as [|op t IH]; intros s o id d hc s' rs cks HI HG HD; cbn [run_script].
   - intros [= <- <- <-]. split; [exact HI|]. split; [exact HG|]. split; [reflexivity|]. split; [lia|].
     exists (Some d), []. split; [reflexivity|]. split; [intros; right; reflexivity|]. split; [auto|].
     exists id. auto.
-  - cbn [forallb] in Hops. apply andb_prop in Hops. destruct Hops as [Hop Hops].
-    destruct (do_sop s o hc op) as [[s1 r1] c1] eqn:Hd.
-    destruct (do_sop_eff s o id d hc op s1 r1 c1 HI HG HD Hop Hd) as (HI1 & HG1 & Hc1 & Hu1 & Hv1 & Hp1 & Hres).
+  - destruct (do_sop s o hc op) as [[s1 r1] c1] eqn:Hd.
+    destruct (do_sop_eff s o id d hc op s1 r1 c1 HI HG HD Hd) as (HI1 & HG1 & Hc1 & Hu1 & Hv1 & Hp1 & Hres).
     destruct (fire_due_eff s1 HI1 HG1) as (HI2 & HG2 & Fh2 & Fc2 & Fu2 & Hv2 & _ & Hp2).
     pose proof (hand_drawn s o id d HI HD) as Hidd.
     assert (Hv12 : forall k, k <> id -> key_drawn s k ->
@@ -313,17 +340,17 @@ Proof.
       rewrite Hstop. destruct (is_panic r1) eqn:Epan.
       * (* a panic stops the script *)
         intros [= <- <- <-]. split; [exact HI2|]. split; [exact HG2|]. split; [congruence|]. split; [lia|].
-        rewrite (g_script_cons d op t r1 [] [] Hop), Edes, app_nil_r.
+        rewrite (g_script_cons d op t r1 [] []), Edes, app_nil_r.
         exists (Some (g_op d op r1)), (g_ex op r1).
         split; [destruct t; reflexivity|]. split; [exact Hv12|]. split.
         -- intros dd k H. destruct (Hp12 dd k H); auto.
         -- exists id1. split; [exact HD2|]. split; [exact Hck1 | exact Hid1].
       * destruct (run_script (fire_due s1) o hc t) as [[s3 rs3] c3] eqn:Hr.
         intros [= <- <- <-].
-        destruct (IH _ o id1 _ hc s3 rs3 c3 HI2 HG2 HD2 Hops Hr)
+        destruct (IH _ o id1 _ hc s3 rs3 c3 HI2 HG2 HD2 Hr)
           as (HI3 & HG3 & Hc3 & Hu3 & fin & U & Hgs & Hv3 & Hp3 & Hfin).
         split; [exact HI3|]. split; [exact HG3|]. split; [congruence|]. split; [lia|].
-        rewrite (g_script_cons d op t r1 rs3 [] Hop), Edes, app_nil_r.
+        rewrite (g_script_cons d op t r1 rs3 []), Edes, app_nil_r.
         rewrite g_script_acc, Hgs. cbn [fst snd].
         exists fin, (U ++ g_ex op r1). split; [reflexivity|]. split; [|split].
         -- intros k H1 H2.
